@@ -962,6 +962,10 @@ func (s *scanner) PeekN(n int) ([]byte, error) {
 	}
 
 	if s.pos+n > s.used {
+		if err == nil {
+			// a source error latched by refill must not be mistaken for EOF
+			err = s.err
+		}
 		return s.buf[s.pos:s.used], err
 	}
 
